@@ -282,9 +282,48 @@ func (c *loopCtx) analyse(p *Prog) {
 			bodyBlocks = append(bodyBlocks, b)
 		}
 	}
+	// maps written (updated or deleted from) inside the loop body
+	var writtenMaps []ssa.Value
 	for _, b := range bodyBlocks {
 		for _, in := range b.Instrs {
 			switch x := in.(type) {
+			case *ssa.MapUpdate:
+				writtenMaps = append(writtenMaps, x.Map)
+			case ssa.CallInstruction:
+				if bi, ok := x.Common().Value.(*ssa.Builtin); ok && bi.Name() == "delete" {
+					writtenMaps = append(writtenMaps, x.Common().Args[0])
+				}
+			}
+		}
+	}
+	for _, b := range bodyBlocks {
+		for _, in := range b.Instrs {
+			switch x := in.(type) {
+			case *ssa.Lookup:
+				// reading, under a key other than the range key, a map that this loop also
+				// writes: the value read depends on which entries were visited before
+				if _, isMap := x.X.Type().Underlying().(*types.Map); isMap && !c.keyIncludesRangeKey(x.Index) {
+					// a map selected by the range key (outer[rangeKey]) belongs to this entry alone
+					entryLocal := false
+					for _, rt := range valueRoots(x.X) {
+						if lk, ok := rt.(*ssa.Lookup); ok && c.keyIncludesRangeKey(lk.Index) {
+							entryLocal = true
+						}
+						if ex, ok := rt.(*ssa.Extract); ok {
+							if lk, ok := ex.Tuple.(*ssa.Lookup); ok && c.keyIncludesRangeKey(lk.Index) {
+								entryLocal = true
+							}
+						}
+					}
+					if entryLocal {
+						break
+					}
+					for _, w := range writtenMaps {
+						if sameSlice(w, x.X) {
+							l.kind("MAPREAD:other-entry-of-written-map", p.ipos(x))
+						}
+					}
+				}
 			case *ssa.Store:
 				c.classifyStore(p, x)
 			case *ssa.MapUpdate:
@@ -683,7 +722,7 @@ func (c *loopCtx) unsafeKinds(p *Prog) []string {
 }
 
 func checkC16(p *Prog, r *Report) {
-	r.rule("R16.1", "Every `range` over a map in production code (enumerated on go/ssa: Range instructions with a map operand) has only order-insensitive effects: stores through the ranged element (ELEMSTORE, CALLWRITE:elem), stores into an outer map keyed by the range key or storing a constant (MAPSTORE:keyed/constval), deletes keyed by the range key, counters, constant flags, collect-then-sort appends, existential search exits carrying only constants, per-element aborts without other writes. Effects of called functions come from inter-procedural write/emit summaries. Any other kind (EMIT:Warning/Info/print, EXIT:value, CARRY:value, CARRY:append, MAPSTORE:other, OUTERSTORE, CALLWRITE:outer/global) must be permitted by a row of tables/maprange.tsv keyed by function + map; a row relaxes named kinds only, so a new effect inside an exempted loop is still reported.")
+	r.rule("R16.1", "Every `range` over a map in production code (enumerated on go/ssa: Range instructions with a map operand) has only order-insensitive effects: stores through the ranged element (ELEMSTORE, CALLWRITE:elem), stores into an outer map keyed by the range key or storing a constant (MAPSTORE:keyed/constval), deletes keyed by the range key, counters, constant flags, collect-then-sort appends, existential search exits carrying only constants, per-element aborts without other writes. Effects of called functions come from inter-procedural write/emit summaries. Any other kind (EMIT:Warning/Info/print, EXIT:value, CARRY:value, CARRY:append, MAPSTORE:other, MAPREAD:other-entry-of-written-map — a lookup, under a key other than the range key, in a map the loop also writes —, OUTERSTORE, CALLWRITE:outer/global) must be permitted by a row of tables/maprange.tsv keyed by function + map; a row relaxes named kinds only, so a new effect inside an exempted loop is still reported.")
 	sm := newSummarizer(p)
 	loops := findMapLoops(p)
 	r.floor("R16.1", "map range loops enumerated", len(loops), 30)
